@@ -55,7 +55,10 @@ func (b *gbuilder) term(e ast.Expr, fr *core.Frame) (string, bool) {
 					return t, true
 				}
 			}
-			return x.Name, true
+			if v.IsField() {
+				return x.Name, true
+			}
+			return b.c.Role(v), true
 		}
 	case *ast.SelectorExpr:
 		if fv := fieldVar(x, fr); fv != nil {
@@ -154,7 +157,7 @@ func (b *gbuilder) build(e ast.Expr, fr *core.Frame) *formula {
 				b.depth--
 				return f
 			}
-			return atom("F(" + x.Name + ")")
+			return atom("F(" + b.c.Role(v) + ")")
 		}
 	case *ast.SelectorExpr:
 		if t, ok := b.term(x, fr); ok {
@@ -615,8 +618,8 @@ func (a *agg) requireGuard(rule, construct string, g *gpath, i int, sameSection 
 	lits := g.litsBefore(i, sameSection)
 	ok, cx := implies(lits, want)
 	a.note(rule, construct, ev.Pos, !ok,
-		what+" only happens under "+want.String(),
-		sprintf("%s happens on a path whose conditions (%s) do not imply the required guard %s (counterexample: %s)", what, litsString(lits), want.String(), cx), g.p)
+		what+" only happens under "+a.c.Pretty(want.String()),
+		a.c.Pretty(sprintf("%s happens on a path whose conditions (%s) do not imply the required guard %s (counterexample: %s)", what, litsString(lits), want.String(), cx)), g.p)
 }
 
 // walkDecl walks a declared function found by name.
@@ -684,4 +687,31 @@ func timerLits(c *Ctx, d *core.FuncDecl) []*ast.FuncLit {
 	})
 	sort.Slice(out, func(i, j int) bool { return out[i].Pos() < out[j].Pos() })
 	return out
+}
+
+// aliasOf resolves an identifier used inside an inlined helper back to the caller's variable when
+// the helper's parameter was bound to a plain identifier argument.
+func aliasOf(p *core.Path, at *core.Event, e ast.Expr) *types.Var {
+	v := identVar(e, at.Frame)
+	for fr := at.Frame; v != nil && fr != nil && fr.Parent != nil; fr = fr.Parent {
+		ft := fr.FuncType()
+		if ft == nil || fr.Call == nil {
+			return v
+		}
+		i := 0
+		found := false
+		for _, f := range ft.Params.List {
+			for _, n := range f.Names {
+				if fr.Info().Defs[n] == types.Object(v) && i < len(fr.Call.Args) {
+					v = identVar(fr.Call.Args[i], fr.Parent)
+					found = true
+				}
+				i++
+			}
+		}
+		if !found {
+			return v
+		}
+	}
+	return v
 }
